@@ -398,6 +398,12 @@ class Compiler:
                     "io-error",
                     (ctx_start, ctx_end, f"Could not write to '{filepath}':\n{ex}")
                 )
+            except ValueError:
+                # A path the OS cannot even represent, e.g. one with a NUL character
+                reports.error(
+                    "io-error",
+                    (ctx_start, ctx_end, f"{filepath!r} is not a valid file path.")
+                )
             else:
                 print(f"File '{filepath}' was written in format '{file_format}'", file=sys.stderr)
 
